@@ -386,3 +386,9 @@ func Describe(v *ref.Value) string {
 	}
 	return s
 }
+
+// ScrambleStrict is Scramble without the "-0" spelling of zero (room versions
+// 6+ refuse events containing it, so event texts must not use it).
+func ScrambleStrict(r *Rand) *Render {
+	return &Render{R: r, Whitespace: true, Shuffle: true, Escapes: true}
+}
